@@ -60,6 +60,9 @@ func ruleVersNormAll(p *Prog, r *Report) {
 			}
 			if name == "NewVersion" {
 				calls = append(calls, c)
+			} else if g := c.Call.StaticCallee(); g != nil && p.IsRepoFn(g) && callsNewVersion(p, g, 0) {
+				// the per-constraint work extracted into a helper of the package: its call stands for the validation
+				calls = append(calls, c)
 			}
 		}
 	}
@@ -138,6 +141,38 @@ func ruleVersNormAll(p *Prog, r *Report) {
 		r.Ok("R-VERS-NORM-ALL", key, p.FnPos(nc), fmt.Sprintf("all %d error-free returns lie behind the loop over the constraint parameter that calls NewVersion, or behind the test that the list is empty", n))
 	}
 	r.Floor("R-VERS-NORM-ALL", 1)
+}
+
+// callsNewVersion: g (or a repo function it calls, two levels deep) hands a text to an ecosystem's NewVersion
+func callsNewVersion(p *Prog, g *ssa.Function, depth int) bool {
+	if g.Blocks == nil || depth > 2 {
+		return false
+	}
+	for _, b := range g.Blocks {
+		for _, ins := range b.Instrs {
+			c, ok := ins.(*ssa.Call)
+			if !ok {
+				continue
+			}
+			if c.Call.IsInvoke() {
+				if c.Call.Method.Name() == "NewVersion" {
+					return true
+				}
+				continue
+			}
+			h := c.Call.StaticCallee()
+			if h == nil {
+				continue
+			}
+			if h.Signature.Recv() != nil && h.Name() == "NewVersion" {
+				return true
+			}
+			if p.IsRepoFn(h) && callsNewVersion(p, h, depth+1) {
+				return true
+			}
+		}
+	}
+	return false
 }
 
 // afterFirstSlash: v is the text of range parameter rng after its first '/'. "" = yes, otherwise why not.
